@@ -51,7 +51,7 @@ pub fn intersect_cl(c: &Circle, l: &Line) -> CircleLineIntersection {
     } else if d > c.r - EPS {
         let ort = Point::new(l.a, l.b);
         let ort = ort / ort.len();
-        CircleLineIntersection::Touch(ort * c.r)
+        CircleLineIntersection::Touch(c.c - ort * (l.a * c.c.x + l.b * c.c.y + l.c))
     } else {
         let mut ort = Point::new(l.a, l.b);
         if ort.len() != 0.0 {
